@@ -31,7 +31,10 @@ Definition W64 : Z := 2 ^ 64.
 Definition W32 : Z := 2 ^ 32.
 
 (* ---- bytes ---- *)
-Definition len {A : Type} (l : list A) : Z := Z.of_nat (length l).
+(* length as a Z, tail recursive (the extracted model runs on inputs of several hundred KiB) *)
+Fixpoint len_aux {A : Type} (l : list A) (acc : Z) : Z :=
+  match l with [] => acc | _ :: t => len_aux t (acc + 1) end.
+Definition len {A : Type} (l : list A) : Z := len_aux l 0.
 
 Fixpoint le (l : list Z) : Z :=            (* MEM_readLE16/24/32/64 *)
   match l with [] => 0 | b :: t => b + 256 * le t end.
@@ -39,11 +42,11 @@ Fixpoint le (l : list Z) : Z :=            (* MEM_readLE16/24/32/64 *)
 Fixpoint ser_le (k : nat) (v : Z) : list Z :=   (* MEM_writeLE.. of k bytes *)
   match k with O => [] | S k' => (v mod 256) :: ser_le k' (v / 256) end.
 
-(* Some (l without its first k elements) when l has at least k elements *)
-Fixpoint drop_exact (k : nat) (l : list Z) : option (list Z) :=
-  match k with
-  | O => Some l
-  | S k' => match l with [] => None | _ :: t => drop_exact k' t end
+(* Some (l without its first k elements) when l has at least k elements (k <= 0: l itself); tail recursive *)
+Fixpoint drop_exact (l : list Z) (k : Z) : option (list Z) :=
+  match l with
+  | [] => if k <=? 0 then Some [] else None
+  | _ :: t => if k <=? 0 then Some l else drop_exact t (k - 1)
   end.
 
 Definition is_skippable_magic (m : Z) : bool := Z.land m SKIP_MASK =? SKIP_START.
@@ -157,15 +160,16 @@ Definition read_skippable_frame_size (src : list Z) : option Z :=
 (* ---- ZSTD_findFrameSizeInfo (zstd1, non-legacy) ---- *)
 Record fsi : Type := mk_fsi { fsi_csize : Z; fsi_bound : Z; fsi_nb : Z }.
 
-(* the block loop: returns (what follows the last block, bytes consumed, number of blocks) *)
-Fixpoint walk_blocks (fuel : nat) (src : list Z) (consumed nb : Z) : option (list Z * Z * Z) :=
+(* the block loop: returns (what follows the last block, bytes consumed, number of blocks).
+   Fuel is a list (only its length matters; callers pass the input itself: every block consumes >= 3 bytes). *)
+Fixpoint walk_blocks (fuel : list Z) (src : list Z) (consumed nb : Z) : option (list Z * Z * Z) :=
   match fuel with
-  | O => None
-  | S f =>
+  | [] => None
+  | _ :: f =>
     match get_cblock_size src with
     | None => None
     | Some (cs, _, last, _) =>
-      match drop_exact (Z.to_nat (BHSZ + cs)) src with      (* ZSTD_blockHeaderSize + cBlockSize > remainingSize *)
+      match drop_exact src (BHSZ + cs) with      (* ZSTD_blockHeaderSize + cBlockSize > remainingSize *)
       | None => None
       | Some rest =>
           if last then Some (rest, consumed + BHSZ + cs, nb + 1)
@@ -183,15 +187,15 @@ Definition find_frame_size_info (src : list Z) : option fsi :=
   else
     match get_frame_header src with
     | HOk h =>
-      match drop_exact (Z.to_nat (fh_hsize h)) src with
+      match drop_exact src (fh_hsize h) with
       | None => None
       | Some body =>
-        match walk_blocks (S (length body)) body (fh_hsize h) 0 with
+        match walk_blocks (0 :: body) body (fh_hsize h) 0 with
         | None => None
         | Some (rest, consumed, nb) =>
             let bnd := if fh_fcs h =? CS_UNKNOWN then nb * fh_bsmax h else fh_fcs h in
             if fh_chk h then
-              match drop_exact 4 rest with
+              match drop_exact rest 4 with
               | None => None
               | Some _ => Some (mk_fsi (consumed + CKSZ) bnd nb)
               end
@@ -205,18 +209,18 @@ Definition find_frame_compressed_size (src : list Z) : option Z :=
   match find_frame_size_info src with Some i => Some (fsi_csize i) | None => None end.
 
 (* ---- ZSTD_decompressBound ---- *)
-Fixpoint decompress_bound_loop (fuel : nat) (src : list Z) (acc : Z) : option Z :=
+Fixpoint decompress_bound_loop (fuel : list Z) (src : list Z) (acc : Z) : option Z :=
   match src with
   | [] => Some acc
   | _ :: _ =>
     match fuel with
-    | O => None
-    | S f =>
+    | [] => None
+    | _ :: f =>
       match find_frame_size_info src with
       | None => None
       | Some i =>
         if fsi_bound i =? CS_ERROR then None
-        else match drop_exact (Z.to_nat (fsi_csize i)) src with
+        else match drop_exact src (fsi_csize i) with
              | None => None
              | Some rest => decompress_bound_loop f rest ((acc + fsi_bound i) mod W64)
              end
@@ -224,16 +228,16 @@ Fixpoint decompress_bound_loop (fuel : nat) (src : list Z) (acc : Z) : option Z 
     end
   end.
 
-Definition decompress_bound (src : list Z) : option Z := decompress_bound_loop (length src) src 0.
+Definition decompress_bound (src : list Z) : option Z := decompress_bound_loop src src 0.
 
 (* ---- ZSTD_decompressionMargin ---- *)
-Fixpoint decompression_margin_loop (fuel : nat) (src : list Z) (margin maxbs : Z) : option Z :=
+Fixpoint decompression_margin_loop (fuel : list Z) (src : list Z) (margin maxbs : Z) : option Z :=
   match src with
   | [] => Some (margin + maxbs)
   | _ :: _ =>
     match fuel with
-    | O => None
-    | S f =>
+    | [] => None
+    | _ :: f =>
       match get_frame_header src with
       | HErr => None
       | hr =>
@@ -241,7 +245,7 @@ Fixpoint decompression_margin_loop (fuel : nat) (src : list Z) (margin maxbs : Z
         | None => None
         | Some i =>
           if fsi_bound i =? CS_ERROR then None
-          else match hr, drop_exact (Z.to_nat (fsi_csize i)) src with
+          else match hr, drop_exact src (fsi_csize i) with
                | HOk h, Some rest =>
                    if fh_skippable h
                    then decompression_margin_loop f rest (margin + fsi_csize i) maxbs
@@ -256,7 +260,7 @@ Fixpoint decompression_margin_loop (fuel : nat) (src : list Z) (margin maxbs : Z
   end.
 
 Definition decompression_margin (src : list Z) : option Z :=
-  decompression_margin_loop (length src) src 0 0.
+  decompression_margin_loop src src 0 0.
 
 (* ZSTD_DECOMPRESSION_MARGIN(originalSize, blockSize) *)
 Definition DECOMPRESSION_MARGIN (originalSize blockSize : Z) : Z :=
@@ -265,15 +269,15 @@ Definition DECOMPRESSION_MARGIN (originalSize blockSize : Z) : Z :=
   + blockSize.
 
 (* ---- ZSTD_findDecompressedSize (non-legacy): a value, CS_UNKNOWN or CS_ERROR ---- *)
-Fixpoint find_decompressed_size_loop (fuel : nat) (src : list Z) (total : Z) : Z :=
+Fixpoint find_decompressed_size_loop (fuel : list Z) (src : list Z) (total : Z) : Z :=
   match fuel with
-  | O => CS_ERROR
-  | S f =>
+  | [] => CS_ERROR
+  | _ :: f =>
     if len src <? MIN_INPUT then (match src with [] => total | _ => CS_ERROR end)
     else if is_skippable_magic (le (firstn 4 src)) then
       match read_skippable_frame_size src with
       | None => CS_ERROR
-      | Some s => match drop_exact (Z.to_nat s) src with
+      | Some s => match drop_exact src s with
                   | None => CS_ERROR
                   | Some rest => find_decompressed_size_loop f rest total
                   end
@@ -284,7 +288,7 @@ Fixpoint find_decompressed_size_loop (fuel : nat) (src : list Z) (total : Z) : Z
       else if total + fcs >=? W64 then CS_ERROR
       else match find_frame_compressed_size src with
            | None => CS_ERROR
-           | Some s => match drop_exact (Z.to_nat s) src with
+           | Some s => match drop_exact src s with
                        | None => CS_ERROR
                        | Some rest => find_decompressed_size_loop f rest (total + fcs)
                        end
@@ -292,7 +296,7 @@ Fixpoint find_decompressed_size_loop (fuel : nat) (src : list Z) (total : Z) : Z
   end.
 
 Definition find_decompressed_size (src : list Z) : Z :=
-  find_decompressed_size_loop (S (length src)) src 0.
+  find_decompressed_size_loop (0 :: src) src 0.
 
 (* ======================================================================== *)
 (* Abstract frame layouts and their serialisation                            *)
